@@ -314,20 +314,6 @@ def size_of(c):
     return (sum(len(b) for b in c["in"]), len(c["chain"]), len(c["query"]))
 
 
-def collide_kv(c):
-    """two different label sets seen anywhere in the chain (the fingerprint table lists every one) whose multisets of k+v
-    strings are equal: hash.go joins k and v without a separator, so they share a fingerprint for every CityHash64"""
-    seen = {}
-    sets = [r["labels"] or {} for r in (c["tab"].get("fp") or [])] + [e.get("labels") or {} for e in c["out"]["entries"]]
-    for l in sets:
-        key = tuple(sorted(k + v for k, v in l.items()))
-        canon = tuple(sorted(l.items()))
-        if key in seen and seen[key] != canon:
-            return True
-        seen[key] = canon
-    return False
-
-
 def classify(c, code):
     """map a specification violation to a recorded finding id (or None = new violation)"""
     kinds = [s["k"] for s in c["chain"]]
@@ -347,8 +333,6 @@ def classify(c, code):
         last = max(i for i, k in enumerate(kinds) if k == "label_format")
         if not any(k in ("by_without", "parser") for k in kinds[last + 1:]):
             return "label-format-stale-fingerprint"
-    if code in (2, 3) and collide_kv(c):
-        return "hash-no-separator"
     return None
 
 
@@ -381,10 +365,7 @@ def run_cases(ck, cases, label):
     attr_bad = [c for c in runnable if c["out"]["err"] == "crash" and not (0 <= c.get("crash_stage", -1) < len(c["chain"]) and
                 TYPES.get(c["chain"][c["crash_stage"]]["k"], "?") in (c.get("crash_trace") or ""))]
     ck.obligation("%s: a process death is attributed to the stage named in its stack trace" % label, not attr_bad, "cases: %s" % [c["id"] for c in attr_bad[:5]])
-    # colliding label sets (finding hash-no-separator) inside an aggregation: which of the merged label sets names the series
-    # depends on Go's map iteration order, so the implementation itself is not a function of its input there
-    nondet = set(c["id"] for c in runnable if collide_kv(c) and any(s["k"] in ("lra", "unwrap_agg", "agg_op") for s in c["chain"]))
-    pipe_bad = [c for c in runnable if c.get("pipelined") == "differs" and c["id"] not in nondet]
+    pipe_bad = [c for c in runnable if c.get("pipelined") == "differs"]
     ck.obligation("%s: the pipelined chain and the stage-by-stage replay send the same entries" % label, not pipe_bad, "cases: %s" % [c["id"] for c in pipe_bad[:5]])
     mism, viol = [], []
     shard = 300
@@ -396,7 +377,7 @@ def run_cases(ck, cases, label):
         if m is None:
             ck.obligation("%s: cases evaluated inside Coq" % label, False, out[-2500:])
             return runnable, fp_cases
-        mism += [i for i in m if i not in nondet]
+        mism += m
         viol += v
     byid = {c["id"]: c for c in runnable}
     ck.obligation("%s: correspondence model run_chain = implementation on %d (chain, batching) cases" % (label, len(runnable)), not mism,
